@@ -76,6 +76,9 @@ func errClass(err error) string {
 	switch {
 	case strings.HasSuffix(m, "invalid syntax"):
 		return "syntax"
+	case strings.HasSuffix(m, "is not a valid decimal number"):
+		// decimalValueFromString, repaired (D10-S1, /repo 6916d90): a point directly followed by a sign
+		return "syntax"
 	case strings.HasSuffix(m, "value out of range"):
 		return "range"
 	case strings.Contains(m, "converting empty string to number"):
